@@ -9,6 +9,7 @@
 #include <etl/_type_traits/is_function.hpp>
 #include <etl/_type_traits/is_member_pointer.hpp>
 #include <etl/_type_traits/is_object.hpp>
+#include <etl/_type_traits/is_same.hpp>
 #include <etl/_utility/forward.hpp>
 
 namespace etl {
@@ -19,7 +20,7 @@ template <typename Class, typename Pointed, typename T1, typename... Args>
 constexpr auto invoke_memptr(Pointed Class::* f, T1&& t1, Args&&... args) -> decltype(auto)
 {
     if constexpr (is_function_v<Pointed>) {
-        if constexpr (is_base_of_v<Class, decay_t<T1>>) {
+        if constexpr (is_same_v<Class, decay_t<T1>> or is_base_of_v<Class, decay_t<T1>>) {
             return (etl::forward<T1>(t1).*f)(etl::forward<Args>(args)...);
         } else if constexpr (is_reference_wrapper_v<decay_t<T1>>) {
             return (t1.get().*f)(etl::forward<Args>(args)...);
@@ -28,7 +29,7 @@ constexpr auto invoke_memptr(Pointed Class::* f, T1&& t1, Args&&... args) -> dec
         }
     } else {
         static_assert(is_object_v<Pointed> && sizeof...(args) == 0);
-        if constexpr (is_base_of_v<Class, decay_t<T1>>) {
+        if constexpr (is_same_v<Class, decay_t<T1>> or is_base_of_v<Class, decay_t<T1>>) {
             return etl::forward<T1>(t1).*f;
         } else if constexpr (is_reference_wrapper_v<decay_t<T1>>) {
             return t1.get().*f;
